@@ -5,6 +5,7 @@ import ALV.Props.C07
 import ALV.Props.C08
 import ALV.Props.C09
 import ALV.Props.C10
+import ALV.Props.C11
 import ALV.Props.C12
 import ALV.Props.C16
 import ALV.Props.C18
